@@ -1,26 +1,30 @@
 #!/usr/bin/env python3
-"""Applies a patch to /repo, runs the given checks, reverts. Usage: trymutant.py <patch.diff> <tier> <ID> [<ID>...]"""
+"""Applies a patch to a scratch copy of /repo (never to /repo itself), runs the given checks against the copy, reverts.
+Usage: trymutant.py <patch.diff> <tier> <ID> [<ID>...]"""
 import subprocess, sys, os, json, time
-patch, tier, ids = sys.argv[1], sys.argv[2], sys.argv[3:]
+patch, tier, ids = os.path.abspath(sys.argv[1]), sys.argv[2], sys.argv[3:]
+COPY = "/tmp/mutrepo"
 def sh(cmd, **kw):
     return subprocess.run(cmd, shell=True, stdout=subprocess.PIPE, stderr=subprocess.STDOUT, text=True, **kw)
-st = sh("git -C /repo status --porcelain").stdout.strip()
-if st:
-    print("REPO NOT CLEAN:\n" + st); sys.exit(2)
-r = sh("git -C /repo apply --whitespace=nowarn %s" % patch)
+head = sh("git -C /repo rev-parse HEAD").stdout.strip()
+if not os.path.isdir(COPY) or sh("git -C %s rev-parse HEAD" % COPY).stdout.strip() != head:
+    sh("rm -rf %s && cp -r /repo %s" % (COPY, COPY))
+sh("git -C %s checkout -- . && git -C %s clean -fdq" % (COPY, COPY))
+r = sh("git -C %s apply --whitespace=nowarn %s" % (COPY, patch))
 if r.returncode != 0:
     print("PATCH DOES NOT APPLY:", r.stdout); sys.exit(2)
 out = {}
+env = dict(os.environ, VERIF_REPO=COPY)
 try:
     for i in ids:
         t0 = time.time()
-        r = sh("cd /verif && ./check %s %s" % (i, tier))
+        r = sh("cd /verif && ./check %s %s" % (i, tier), env=env)
         lines = [l for l in r.stdout.splitlines() if l.startswith("VIOLATION") or l.startswith("  class=")]
         summ = [l for l in r.stdout.splitlines() if (" quick:" in l or " thorough:" in l)]
-        out[i] = {"rc": r.returncode, "violations": lines[:6], "summary": summ[-1:] , "secs": int(time.time()-t0)}
+        out[i] = {"rc": r.returncode, "violations": lines[:6], "summary": summ[-1:], "secs": int(time.time()-t0)}
         print(i, "rc=%d" % r.returncode, (lines[1][:300] if len(lines) > 1 else ""), flush=True)
         if r.returncode not in (0, 1):
             print(r.stdout[-1500:])
 finally:
-    sh("git -C /repo checkout -- .")
-print(json.dumps(out))
+    sh("git -C %s checkout -- ." % COPY)
+print("RESULT " + json.dumps(out))
